@@ -38,6 +38,10 @@ def events(env, tier):
         if A.needs(k) <= env:
             ev.append(("stmt", "K", [], [("k", k), ("l", N("2"))], [N("0")], "none"))
             ev.append(("stmt", "K", [N("1")], [("k", k)], [N("0")], "none"))
+    kl = [k for k in A.KW_LISTS if A.needs(k) <= env]
+    for i, k1 in enumerate(kl[:5]):
+        k2 = kl[(i + 1) % len(kl)]
+        ev.append(("stmt", "K2", [], [("k", k1), ("m", k2), ("z", k1)], [N("0")], "none"))
     ev.append(("for", "int", "i", ("range", 0, 2, None), [("stmt", "L", [V("i")], [], [V("i"), B("+", V("i"), N("1"))], "sq")]))
     ev.append(("for", "float", "t", ("vals", [N("0.5"), N("2")], "sq"), [("stmt", "L", [], [("k", V("t"))], [N("0")], "none"), ("stmt", "M", None, [], [N("1")], "none")]))
     ev.append(("blank",))
